@@ -6,6 +6,7 @@ import OV.Lemmas.C06SolveC
 import OV.Lemmas.C06Multi
 import OV.Lemmas.C06SoundOr
 import OV.Lemmas.C06CompleteOr
+import OV.Lemmas.C06CommuteSem
 /-!
 # C06 — the pattern matcher reports a match exactly when the subgraph is an instance
 
@@ -208,6 +209,42 @@ theorem commute_variant_is_swap (fix7a fix7c : Bool) (p q : GPat) (m : List Bool
       skelInputs n'.inputs = (if b then (skelInputs n.inputs).reverse else skelInputs n.inputs) ∧
       (b = true → n.inputs.length = 2) ∧ n' = { n with inputs := n'.inputs, opIsStr := false } :=
   copyGraph_skel fix7a fix7c p q m hm h
+
+/-- **`commute` yields exactly the swap variants** (semantic half of `commute_exact`, for patterns whose
+value patterns are `ANY`, node outputs and named `Var`s — object identity immaterial, `namedLeaves`):
+the list returned by `GraphPattern.commute` *is* the list of patterns obtained by exchanging the operands of
+the masked nodes (`variantOf p m = p` for the all-`false` mask, else `swapPat p m`), one per mask, in
+`itertools.product` order. -/
+theorem commute_is_swap_variants_partial (fix7a fix7b fix7c : Bool) (p : GPat) (l : List GPat)
+    (hn : p.namedLeaves = true) (h : commute fix7a p fix7b fix7c = .ok l) :
+    l = (masks fix7b p.nodes).map (variantOf p) :=
+  commute_named fix7a fix7b fix7c p l hn h
+
+/-- **A swapped variant has exactly the instances of the pattern with those operands exchanged** — with all
+operator flags of the original kept (`pureSwap`): `Instance` never reads the `str`-op flag that copies lose
+(`instance_str`).  For `namedLeaves` patterns. -/
+theorem commute_variant_instances_partial (E : Env) (fix7a fix7c : Bool) (p q : GPat) (m : List Bool)
+    (hn : p.namedLeaves = true) (hm : m.any id = true) (h : copyGraph fix7a p m fix7c = .ok q)
+    (root : NodeId) (A : Assign) :
+    Instance { E with p := q } root A ↔ Instance { E with p := pureSwap p m } root A := by
+  have hq : q = swapPat p m := by
+    have := copyGraph_named fix7a fix7c p q m hn h
+    simpa [variantOf, hm] using this
+  subst hq
+  exact ⟨instance_str E (swapPat_pureSwap p m) root A, instance_str E (swapPat_pureSwap p m).symm root A⟩
+
+/-- **With `commute=True` the matches are exactly those of the pattern under swaps of commutative operands**:
+some variant of `commute` reports a match at `root` iff, for some swap mask, the subgraph ending at `root` is
+an instance (with accepting checkers) of the pattern with those operands exchanged.  For `namedLeaves`
+patterns whose variants satisfy the hypotheses of `match_iff_instance_partial` (`IffHyps`). -/
+theorem commute_matches_iff_swap_instance_partial (E : Env) (root : NodeId) (np0 : NPId)
+    (fix7a fix7b fix7c : Bool) (l : List GPat) (hn : E.p.namedLeaves = true)
+    (h : commute fix7a E.p fix7b fix7c = .ok l)
+    (hH : ∀ m ∈ masks fix7b E.p.nodes, IffHyps E (variantOf E.p m) np0) :
+    (∃ q ∈ l, (patternMatch { E with p := q } root false).isSome = true) ↔
+      ∃ m ∈ masks fix7b E.p.nodes, ∃ A, Instance { E with p := variantOf E.p m } root A ∧
+        ChecksPass (variantOf E.p m) A :=
+  commute_semantic E root np0 fix7a fix7b fix7c l hn h hH
 
 /-- **`commute` keeps every `Constant` pattern intact**: in every variant, node pattern `i` holds
 exactly the `Constant` patterns of node pattern `i` of the original — same value, same `rel_tol`,
@@ -858,6 +895,65 @@ def mulConstPat : GPat :=
 example : ((commute true mulConstPat).toOption.map (fun l => l.map (fun q => q.nodes.map NPat.consts))) =
     some [[[{ val := .scalar 1000, relTol := ⟨1, 100000⟩, absTol := ⟨1, 100000000⟩ }]],
           [[{ val := .scalar 1000, relTol := ⟨1, 100000⟩, absTol := ⟨1, 100000000⟩ }]]] := by decide
+
+/-- `Sub(a, b)`-free host for the commute examples: `s = Add(a, b)` -/
+def addEnv : Env :=
+  { p := addPat
+    g := { nodes := [mkGNode "Add" [some 0, some 1] [2]], outputs := [2], consts := [], foreign := [], extUses := [] }
+    close := closeEq }
+
+/-- `commute_is_swap_variants_partial` / `commute_matches_iff_swap_instance_partial` are not vacuous: `Add(x, y)`
+has named leaves, `commute` succeeds with two variants, and both variants satisfy `IffHyps` -/
+example : addPat.namedLeaves = true ∧ (commute true addPat true false).toOption.isSome = true ∧
+    masks true addPat.nodes = [[false], [true]] ∧
+    (∀ m ∈ masks true addEnv.p.nodes, IffHyps addEnv (variantOf addEnv.p m) 0) := by
+  refine ⟨by decide, by decide, by decide, ?_⟩
+  intro m hm
+  have hm' : m = [false] ∨ m = [true] := by
+    have : masks true addEnv.p.nodes = [[false], [true]] := by decide
+    rw [this] at hm
+    simpa using hm
+  have key : ∀ q : GPat, q.nodes.length = 1 →
+      (∀ P ∈ q.nodes, ∀ vp, some vp ∈ P.inputs → vp = xVar ∨ vp = .var 2 (some "y") true false none) →
+      q.backOk = true → q.outputNodes = [0] → q.outputs = [.out 0 0] →
+      (∀ P, q.nodes[0]? = some P → P.outputs.length = 1) → IffHyps addEnv q 0 := by
+    intro q hlen hin hbk hon hout hol
+    refine ⟨rfl, hbk, ?_, ?_, .inl rfl, hon, ?_⟩
+    · intro P hP vp hvp
+      rcases hin P hP vp hvp with rfl | rfl <;> exact ⟨trivial, rfl⟩
+    · intro np P hP vp hvp r hr
+      rcases hin P (List.mem_of_getElem? hP) vp hvp with rfl | rfl <;> simp [VPat.refs, xVar] at hr
+    · intro vp hvp
+      rw [hout] at hvp
+      simp at hvp
+      subst hvp
+      have hlt : 0 < q.nodes.length := by omega
+      refine ⟨0, q.nodes[0], rfl, by simp [List.getElem?_eq_getElem hlt], ?_⟩
+      have := hol q.nodes[0] (by simp [List.getElem?_eq_getElem hlt])
+      omega
+  rcases hm' with rfl | rfl
+  · refine key _ (by decide) ?_ (by decide) (by decide) rfl ?_
+    · intro P hP vp hvp
+      simp [variantOf, addEnv, addPat, mkNode] at hP
+      subst hP
+      simpa [xVar] using hvp
+    · intro P hP
+      simp [variantOf, addEnv, addPat, mkNode] at hP
+      subst hP; rfl
+  · refine key _ (by decide) ?_ (by decide) (by decide) rfl ?_
+    · intro P hP vp hvp
+      simp [variantOf, swapPat, swapNode, addEnv, addPat, mkNode] at hP
+      subst hP
+      simp [xVar] at hvp
+      rcases hvp with rfl | rfl
+      · exact .inr rfl
+      · exact .inl rfl
+    · intro P hP
+      simp [variantOf, swapPat, swapNode, addEnv, addPat, mkNode] at hP
+      subst hP; rfl
+
+/-- `commute_variant_instances_partial` is not vacuous: the swapped copy of `Add(x, y)` exists -/
+example : (copyGraph true addPat [true] false).toOption.isSome = true ∧ addPat.namedLeaves = true := by decide
 
 /-- `commute` on `Add(x, y)`: two variants (so `commute_exact` is not vacuous). -/
 example : (commute true addPat).toOption.map List.length = some 2 := by decide
